@@ -60,10 +60,11 @@ const (
 	sinkLoad
 	sinkCount
 	sinkPeekSplit // Next + PushBack, then several consumers sharing the stream through Split()
+	sinkPairedWith // the stream of the mates, as the paired writers derive it for the second file
 	nSinks
 )
 
-var sinkNames = []string{"collect", "DivideOn", "Distribute", "Load", "Count", "peek+PushBack+Split consumers"}
+var sinkNames = []string{"collect", "DivideOn", "Distribute", "Load", "Count", "peek+PushBack+Split consumers", "PairedWith"}
 
 type stream struct {
 	Recs    []Rec
@@ -174,6 +175,12 @@ func drawIterPlan(t *simrt.Tape, thorough bool) iterPlan {
 		p.Mids = append(p.Mids, m)
 	}
 	p.Sink = t.Choose(nSinks)
+	if p.Sink == sinkPairedWith && p.Source != srcPair {
+		p.Sink = sinkCollect
+	}
+	if p.Source == srcPair && t.Choose(2) == 1 {
+		p.Sink = sinkPairedWith
+	}
 	p.SinkA = t.Choose(5)
 	p.SinkB = t.Choose(4)
 	return p
@@ -628,6 +635,15 @@ func runIterPlan(rc *RunCtx, p iterPlan, hasMerge []bool) (SimResult, *iterOutpu
 				})
 			}
 			wg.Wait()
+		case sinkPairedWith:
+			c := &collected{}
+			out.outs["mates"] = c
+			// as in the paired writers: several workers pass the batches on in completion order,
+			// and the second file is written from the mates of what they pass on
+			it = it.MakeIWorker(func(s *obiseq.BioSequence) (obiseq.BioSequenceSlice, error) {
+				return obiseq.BioSequenceSlice{s}, nil
+			}, false, 2+p.SinkB)
+			collectFrom(it.PairedWith(), c)
 		case sinkLoad:
 			_, sl := it.Load()
 			for _, s := range sl {
@@ -810,6 +826,19 @@ func runC03(rc *RunCtx) {
 				return
 			}
 		}
+	case sinkPairedWith:
+		ids, _, numbering := out.outs["mates"].flat()
+		if numbering != "" {
+			rc.Violate("C03/batch-numbering/"+comp, "stream of the mates: %s\nplan: %s", numbering, desc)
+			return
+		}
+		want := make([]string, len(m.ids))
+		for i, id := range m.ids {
+			want[i] = m.mates[id]
+		}
+		if check("mates", ids, want, m.ordered) && m.ordered {
+			rc.Probe("mates_stream_in_step_with_reads")
+		}
 	case sinkLoad:
 		check("Load", out.loaded, m.ids, m.ordered && m.arrivalSorted)
 	case sinkCount:
@@ -825,7 +854,7 @@ func init() {
 		Random: func(tier string) int { return map[string]int{"quick": 4000, "thorough": 300000}[tier] },
 		Run:    runC03,
 		Level:  "exploration",
-		Rule:   "random compositions source > 0-4 stages > sink over the real combinators: sources inject (any partition incl. empty batches, any arrival permutation), IBatchOver, Pool and Concat of 2-3 streams (empty streams included), ReadSequencesBatchFromFiles with 1-3 concurrent readers, PairTo; stages SortBatches, Rebatch, FilterEmpty, MakeIWorker (tag / drop), MakeISliceWorker, FilterOn, FilterAnd, IFragments, Pipe/Pipeline, CompleteFileIterator, IMergeSequenceBatch, each with 1-4 workers; sinks collect, DivideOn, Distribute (consumer per News key), Load, Count; dense yields in obiiter; oracle = list model of every combinator (exactly-once, order when order-preserving, batch numbers 0..m-1, termination). distinct = distinct (set and order of combinators, schedule signature); non-trivial = at least one step with >=2 runnable tasks",
+		Rule:   "random compositions source > 0-4 stages > sink over the real combinators: sources inject (any partition incl. empty batches, any arrival permutation), IBatchOver, Pool and Concat of 2-3 streams (empty streams included), ReadSequencesBatchFromFiles with 1-3 concurrent readers, PairTo; stages SortBatches, Rebatch, FilterEmpty, MakeIWorker (tag / drop), MakeISliceWorker, FilterOn, FilterAnd, IFragments, Pipe/Pipeline, CompleteFileIterator, IMergeSequenceBatch, each with 1-4 workers; sinks collect, DivideOn, Distribute (consumer per News key), Load, Count, peek+PushBack+Split consumers, PairedWith (the stream of the mates, by batch number); dense yields in obiiter; oracle = list model of every combinator (exactly-once, order when order-preserving, batch numbers 0..m-1, termination). distinct = distinct (set and order of combinators, schedule signature); non-trivial = at least one step with >=2 runnable tasks",
 		Real:   []string{"every obiiter combinator named in the rule", "obiformats.ReadSequencesBatchFromFiles", "obiseq workers, classifiers, Subsequence, Merge, pairing", "iterator termination protocol (Add/Done/WaitAndClose, RegisterAPipe/WaitForLastPipe)"},
 		Stub:   []string{"per-file readers of ReadSequencesBatchFromFiles (harness injectors)", "upstream producers (harness injector tasks)", "sync primitives and scheduler (simrt)"},
 	})
